@@ -328,7 +328,11 @@ func checkC13(c *Ctx) {
 					} else if ar.Stdout != runs[0].Stdout {
 						why = append(why, "report_depends_on_addressing")
 					}
-					why = append(why, logProblems(&ar, l, addrModes[i])...)
+					// how the protection is achieved (flag, environment, GIT_DIR form, which read-only commands are
+					// used) is shape, not property: the reports above decide; a different mechanism is only DRIFT
+					for _, lp := range logProblems(&ar, l, addrModes[i]) {
+						c.Drift(fmt.Sprintf("%s/%s: git invocations differ from CliRun's description: %s", ac.ID, ar.Mode, lp))
+					}
 				}
 				if len(why) > 0 {
 					c.AddViolation(Violation{Predicate: strings.Join(why, ","), Spec: "CliRun (addressing) / ObjGraph oracle", Kind: "addr",
@@ -395,7 +399,8 @@ func replayAddr(c *Ctx, raw json.RawMessage) bool {
 		if ac.Shallow {
 			return ar.Exit != 1 || ar.Stdout != "" || !strings.HasPrefix(ar.Stderr, "error:") || strings.Contains(ar.Stderr, "panic:")
 		}
-		if ar.Exit != 0 || ar.Stdout != top.Stdout || len(logProblems(&ar, l, addrModes[i])) > 0 {
+		_ = i
+		if ar.Exit != 0 || ar.Stdout != top.Stdout {
 			return true
 		}
 		if ar.Before != ar.After {
